@@ -765,7 +765,9 @@ def _cfg_for_spec(cfg):
             "mask": bool(cfg.get("mask")), "nn_kind": nn_kind, "nn_list": list(nn) if nn_kind == "list" else [],
             "algorithm": cfg.get("algorithm", "none"), "stagn": bool(cfg.get("max_stagnation", 20)) if cfg["alg"] == "rand_parafac" else False,
             "rows": list(cfg.get("rows", [])), "tenalg": cfg.get("tenalg", "core"),
-            "sampled": bool(cfg.get("sampled", False)), "init_weights": cfg.get("init_weights", "none")}
+            "sampled": bool(cfg.get("sampled", False)), "init_weights": cfg.get("init_weights", "none"),
+            # a penalised fit (ridge, l1 sparsity) minimises another objective than the reconstruction error
+            "penalised": bool(cfg.get("l2_reg") or cfg.get("core_sparsity") or any(x for x in (cfg.get("sparsity_coefficients") or []) if x))}
 
 
 def nonneg_extra_configs(tier, seed):
@@ -984,9 +986,10 @@ def driver_configs(tier, seed, algs=None):
             linesearch=ch([False, False, True]), tenalg=ch(["core", "einsum"]), scale=sc, caps=list(range(0, 13)))
         for alg in ("nn_parafac", "nn_parafac_hals"):
             kw = {}
+            shp = ch([[4, 5, 3], [5, 4], [3, 4, 2, 3]])
             if alg == "nn_parafac_hals":
-                kw["nn_modes"] = ch(["all", [0], [0, 2], [1]])
-            add(alg, shape=ch([[4, 5, 3], [5, 4], [3, 4, 2, 3]]), rank=ch([1, 2, 3]), data=ch(["nonneg", "nn_lowrank", "signed", "sparse"]),
+                kw["nn_modes"] = ch(["all", [0], [0, len(shp) - 1], [1]])      # only modes the tensor has
+            add(alg, shape=shp, rank=ch([1, 2, 3]), data=ch(["nonneg", "nn_lowrank", "signed", "sparse"]),
                 init=ch(["svd", "random"]), normalize=ch([False, True]), tol=ch(["zero", "tiny", "loose"]), scale=ch([None, 1e-2, 30.0]), **kw)
         add("tucker", shape=ch([[4, 5, 3], [5, 4], [3, 4, 2, 3], [4, 1, 3]]), rank=ch([[1, 1, 1, 1], [2, 2, 2, 2], [2, 1, 2, 1], [3, 2, 1, 2]]),
             data=ch(["generic", "lowrank", "integer"]), init=ch(["svd", "random"]), tol=ch(["zero", "loose"]), scale=sc)
